@@ -350,6 +350,32 @@ func runC14(r *Runner) string {
 	}
 	r.Do("bip39.dec", []string{"-"}, "dec/word count 0..30", true, "one empty word")
 
+	// a valid list with blank elements added, or with white space attached to a word: neither is a list of
+	// 12/15/18/21/24 list words
+	for i := 0; i < r.N(40, 400); i++ {
+		words := c14Mnemonic(r.bytesN(c14Sizes[i%5]))
+		pos := []int{0, len(words) / 2, len(words) - 1, r.rng.Intn(len(words))}[i%4]
+		var v []string
+		switch i % 8 {
+		case 0: // an empty element in front of / behind position pos
+			v = append(append(append([]string{}, words[:pos]...), ""), words[pos:]...)
+		case 1:
+			v = append(append([]string{}, words...), "")
+		case 2:
+			v = append(append(append([]string{}, words[:pos]...), "\t"), words[pos:]...)
+		case 3:
+			v = c14With(words, pos, words[pos]+"\n")
+		case 4:
+			v = c14With(words, pos, "\t"+words[pos])
+		case 5:
+			v = c14With(words, pos, words[pos]+"\r\n")
+		case 6:
+			v = append([]string{"", ""}, words...)
+		default:
+			v = c14With(words, pos, words[pos]+"\u00a0")
+		}
+		r.c14Dec(v, "dec/blank elements and attached white space", "")
+	}
 	// a list word replaced by a prefix of itself, by itself with a letter appended, in upper case, with a space
 	// inside: only the 2048 words themselves are words
 	for i := 0; i < r.N(60, 600); i++ {
